@@ -19,7 +19,8 @@ def run(ctx):
                 "attribute (exhaustive) and random histories; events and ledger compared with the Lean Life model.  sys_life: the real library; server + connect + accept + message exchange + close (three close orders) on all seven "
                 "transports; every call the library (or OpenSSL / c-ares below it) makes to socket, accept4, epoll_create1, eventfd, "
                 "timerfd_create, connect, bind, listen and fopen(*.pem) is failed in turn (EXHAUSTIVE over the call index of the "
-                "scenario; EMFILE, and in the thorough tier every other plausible errno of that call), each case in a forked child; "
+                "scenario; EMFILE, and in the thorough tier every other plausible errno of that call; then two calls fail in one run - every "
+                "pair of call indices in the thorough tier, a seeded sample of pairs otherwise), each case in a forked child; "
                 "oracle: no abort/crash, every failed API call has errno set, after closing all sockets the descriptor table equals the "
                 "baseline, every descriptor the library created was closed and none it did not create (ledger in the wrappers), UXF "
                 "socket file and control files gone, LeakSanitizer finds no unreachable heap.  FORK: established pair + server + a "
